@@ -47,6 +47,17 @@ def from_conv(e, body, dmap, pmap, depth=0):
         return False
     e = hir.strip_ref(e)
     k = e.get("k")
+    if k == "MethodCall" and e["m"] not in ("clone", "to_owned", "into", "try_into", "unwrap", "expect"):
+        # a method of the crate that answers with a conversion result (`target.pos_range(&occurrence)`)
+        prog = _CONV_NOW.get("prog")
+        hb = hir.local_callee_body(prog, e) if prog is not None else None
+        if hb is not None and hb["_crate"] is body["_crate"] and depth < 10 and hb["k"] in ("fn", "assoc_fn") and \
+                not any(True for _ in hir.nodes(hb["body"], "Ret")):
+            hbody = hir.strip(hb["body"])
+            tail = hbody["b"].get("expr") if hbody.get("k") == "BlockExpr" else hbody
+            if tail is not None and from_conv(tail, hb, _defs(hb), _params(hb), depth + 5) is True:
+                return True
+        return False
     if k == "Call":
         d = hir.callee_display(e) or ""
         if d in _CONV_NOW["names"]:
@@ -60,7 +71,10 @@ def from_conv(e, body, dmap, pmap, depth=0):
             tail = hbody["b"].get("expr") if hbody.get("k") == "BlockExpr" else hbody
             if tail is not None and not any(True for _ in hir.nodes(hb["body"], "Ret")):
                 r = from_conv(tail, hb, _defs(hb), _params(hb), depth + 5)
-                if r is True or isinstance(r, tuple):
+                if r is True:
+                    # the helper answers with a conversion result whatever it is handed
+                    return True
+                if isinstance(r, tuple):
                     vals = [from_conv(a_, body, dmap, pmap, depth + 1) for a_ in e["args"]]
                     if vals and all(v is True for v in vals):
                         return True
